@@ -1,5 +1,6 @@
 import H3.Lemmas.ReqRecv
 import H3.Lemmas.ReqLift
+import H3.Lemmas.ReqPoll
 import H3.Lemmas.FrameRefSpec
 import H3.Drv.C03
 /-! # C03 — request streams accept exactly the RFC 9114 §4.1 frame sequences
@@ -756,6 +757,231 @@ example : (spec .server (kindsOf (run frameDec (.hdr []) (evBytes cutReq)).2) .f
 -- the client's oracle refuses the request block as a head: the hypothesis fails, as it should
 example : ¬ HdrsOkK (H3.Drv.C03.hdrFor .client) .head (kindsOf (run frameDec (.hdr []) (evBytes cutReq)).2) := by
   decide +kernel
+
+/-! ## Re-polling: every schedule of deliveries and polls
+
+`documented` / `documentedChunks` stop at the first call that answers `Pending`, so the theorems
+above say what the application has been given up to that point.  A real task is polled again when
+more has arrived.  In the `FrameStream` model a schedule of deliveries and polls is a script with
+`pend` events anywhere: a `pend` is a poll of the transport that finds nothing new (the model
+answers `Pending` there exactly as on an exhausted script: `C03_pend_is_empty_poll`) and the next
+poll finds what has been delivered meanwhile.  `documentedPolledChunks role H sc` runs the
+documented pattern over such a script with EVERY call polled again while it answers `Pending` and
+the script has events left (`documentedR`, `retry`): the re-poll starts the call over from its
+first line — `poll_recv_data` re-enters its loop, `poll_recv_trailers` finds the trailers it saved —
+with whatever the previous poll left in the stream object.  A `Pending` in the resulting trace is
+the last word: nothing more will ever arrive.
+
+Proof (`Lemmas/ReqRetry.lean`, `Lemmas/ReqPoll.lean`, `Lemmas/FrameStreamPend.lean`): (1) for any
+frame layer with inert `Pending` answers (`PendLaws`; `fsLaws` for the model) re-polling a call is
+ONE poll of the call over the frame layer whose `poll_next`/`poll_data` wait (`retry_pollHead`,
+`retry_pollRecvData`, `retry_pollRecvTrailers`, `documentedR_eq`); (2) the waiting model answers like
+the token source holding its future answers (`FutS`, `futS_exists` by the C02 invariant and gA2's
+measure `mu`, `liftRS_sim : FrameSimP waitSrc tokSrc LiftRS`), so `same_documentedP` and `recv_spec`
+apply as they do for the one-shot pattern; (3) the ending `open_` now means "script used up", which
+makes the frame sequence a function of the bytes for FIN / still-open streams whatever the
+schedule (`tiedS_fin_exact`, `tiedS_open_exact`). -/
+
+open H3.ReqRecv (documentedPolledChunks NoEnd TiedS)
+
+/-- a `pend` event is a poll that finds nothing new: the model answers exactly as it does on an
+    exhausted script (same answer, same state) -/
+theorem C03_pend_is_empty_poll (s : H3.FS.St) (r : List H3.FS.Ev) :
+    (H3.FS.pollNext frameDec s (.pend :: r)).1 = (H3.FS.pollNext frameDec s []).1 ∧
+    (H3.FS.pollNext frameDec s (.pend :: r)).2.1 = (H3.FS.pollNext frameDec s []).2.1 ∧
+    (H3.FS.pollData (F := Frame) (E := FrameErr) s (.pend :: r)).1 =
+      (H3.FS.pollData (F := Frame) (E := FrameErr) s []).1 ∧
+    (H3.FS.pollData (F := Frame) (E := FrameErr) s (.pend :: r)).2.1 =
+      (H3.FS.pollData (F := Frame) (E := FrameErr) s []).2.1 := by
+  have hnext : (H3.FS.pollNextLoop frameDec s (.pend :: r)).1 = (H3.FS.pollNextLoop frameDec s []).1 ∧
+      (H3.FS.pollNextLoop frameDec s (.pend :: r)).2.1 = (H3.FS.pollNextLoop frameDec s []).2.1 := by
+    rw [H3.FS.pollNextLoop, H3.FS.pollNextLoop]
+    by_cases he : s.eos = true
+    · rw [if_pos he, if_pos he]
+      cases H3.FS.afterRecv frameDec s .eos with
+      | none => exact ⟨rfl, rfl⟩
+      | some p => exact ⟨rfl, rfl⟩
+    · rw [if_neg he, if_neg he]
+      cases H3.FS.afterRecv frameDec s .pending with
+      | none => exact ⟨rfl, rfl⟩
+      | some p => exact ⟨rfl, rfl⟩
+  have hdata : (H3.FS.pollData (F := Frame) (E := FrameErr) s (.pend :: r)).1 =
+        (H3.FS.pollData (F := Frame) (E := FrameErr) s []).1 ∧
+      (H3.FS.pollData (F := Frame) (E := FrameErr) s (.pend :: r)).2.1 =
+        (H3.FS.pollData (F := Frame) (E := FrameErr) s []).2.1 := by
+    unfold H3.FS.pollData
+    by_cases h0 : s.remaining = 0
+    · rw [if_pos h0, if_pos h0]
+      exact ⟨rfl, rfl⟩
+    · rw [if_neg h0, if_neg h0]
+      unfold H3.FS.recvForData
+      by_cases he : s.eos = true
+      · rw [if_pos he, if_pos he]
+        simp only
+        cases H3.FS.takeChunk s.remaining s.buf with
+        | mk od buf' =>
+          cases od with
+          | none =>
+            simp only
+            by_cases hm : s.remaining ≠ H3.FS.USIZE_MAX
+            · simp [hm]
+            · simp [hm]
+          | some d => simp only; split <;> exact ⟨rfl, rfl⟩
+      · rw [if_neg he, if_neg he]
+        simp only
+        cases H3.FS.takeChunk s.remaining s.buf with
+        | mk od buf' =>
+          cases od with
+          | none => exact ⟨rfl, rfl⟩
+          | some d => simp only; split <;> exact ⟨rfl, rfl⟩
+  refine ⟨?_, ?_, hdata.1, hdata.2⟩
+  · unfold H3.FS.pollNext
+    split
+    · rfl
+    · exact hnext.1
+  · unfold H3.FS.pollNext
+    split
+    · rfl
+    · exact hnext.2
+
+/-- **Re-polling, every frame sequence, every ending, every schedule.**  For every role, header
+    oracle and transport script `sc` of non-empty chunks — ANY frame sequence, valid or not; ANY
+    cutting; `pend` anywhere = any schedule of deliveries and polls; FIN (on a frame boundary or
+    inside a frame), RESET, or neither, anywhere — without a WebTransport header (`NoRaw`) and whose
+    HEADERS blocks are acceptable in their positions: with every call of the documented pattern
+    polled again while it answers `Pending` and events are left, the trace is exactly that of the
+    frame-level model on a frame sequence `toks`/`e` tied to the bytes of the script (`TiedS`: the
+    frame-layer answers are the reference automaton's tokens over the bytes taken from the
+    transport — all of them for FIN and for a stream still open with the script used up; all but
+    possibly some of the last payload bytes for FIN inside DATA; a prefix for RESET — and the ending
+    `open_` occurs only with the script used up), hence the observed outcome is one the RFC 9114 §4.1
+    recogniser accepts for `toks`. -/
+theorem C03_polled_lifted_closed (role : Role) (H : Hdr) (sc : List H3.FS.Ev)
+    (hsc : ScriptOK sc) (hraw : NoRaw (evBytes (upToFin sc)))
+    (hH : HdrsOkK H .head (kindsOf (run frameDec (.hdr []) (evBytes (upToFin sc))).2)) :
+    ∃ toks e, TiedS sc toks e ∧ (∀ tok ∈ toks, TokWF tok) ∧ HdrsOk H toks ∧
+      documentedPolledChunks role H sc = documentedFrames role H (fsFuel ({}, sc)) toks e ∧
+      (spec (sideOf role) (toks.map kind) (stopOf e)).accepts (observe (documentedPolledChunks role H sc)) := by
+  obtain ⟨toks, e, hR, hwf, hfuel, htied⟩ := liftS_exists sc hsc hraw
+  have hok : HdrsOk H toks := tied_hdrsOk H htied.tied hH
+  have hdoc : documented role waitSrc H (fsFuel ({}, sc)) { src := ({}, sc) } =
+      documentedFrames role H (fsFuel ({}, sc)) toks e :=
+    same_documentedP liftRS_sim tokSrc_hdrNoData role H _ (x := { src := ({}, sc) })
+      (y := { src := TS.ofToks toks e }) ⟨fun _ => hR, rfl, rfl⟩ rfl
+  have hpoll : documentedPolledChunks role H sc = documentedFrames role H (fsFuel ({}, sc)) toks e := by
+    rw [← hdoc]
+    exact documentedR_eq fsLaws role H _ _ _ _ (by simp [flen]) (Nat.le_refl _)
+      (by
+        show ∀ r ∈ (documented role waitSrc H (fsFuel ({}, sc)) { src := ({}, sc) }).body, r ≠ .invalid
+        rw [hdoc]
+        exact documentedFrames_no_invalid role H _ toks e hfuel)
+  refine ⟨toks, e, htied, hwf, hok, hpoll, ?_⟩
+  rw [hpoll]
+  exact recv_spec role H e toks _ hwf hok hfuel
+
+/-- **Re-polling, FIN: the outcome is a function of the bytes.**  The wire bytes `w` — ANY frame
+    sequence, valid or not — cut into non-empty chunks in ANY way, delivered under ANY schedule
+    (`pre`: chunks and `pend`s in any order, `evBytes pre = w`), then FIN, where `w` ends on a
+    frame boundary (`acc = []`) or inside a frame header / a payload other than DATA (`acc ≠ []`,
+    FIN inside a frame): with every call polled again while it answers `Pending`, the observed
+    outcome is one the recogniser accepts for the frame kinds of `w` ended by FIN resp. by FIN
+    inside a frame — the right-hand side of `C03_chunked_outcome_fin`: neither the cutting nor the
+    schedule appears in it. -/
+theorem C03_polled_outcome_fin (role : Role) (H : Hdr) (pre post : List H3.FS.Ev) (acc : H3.FS.Bytes)
+    (hpre : NoEnd pre) (hsc : ScriptOK (pre ++ .fin :: post)) (hraw : NoRaw (evBytes pre))
+    (hH : HdrsOkK H .head (kindsOf (run frameDec (.hdr []) (evBytes pre)).2))
+    (hend : (run frameDec (.hdr []) (evBytes pre)).1 = .hdr acc) :
+    (spec (sideOf role) (kindsOf (run frameDec (.hdr []) (evBytes pre)).2)
+        (if acc = [] then .fin else .truncated)).accepts
+      (observe (documentedPolledChunks role H (pre ++ .fin :: post))) := by
+  have hfin : H3.FS.Ev.fin ∉ pre := H3.ReqRecv.noEnd_fin hpre
+  have hup : upToFin (pre ++ .fin :: post) = pre := H3.FS.upToFin_fin pre post hfin
+  obtain ⟨toks, e, htied, _, _, _, hacc⟩ :=
+    C03_polled_lifted_closed role H (pre ++ .fin :: post) hsc (by rw [hup]; exact hraw)
+      (by rw [hup]; exact hH)
+  obtain ⟨he, hk⟩ := tiedS_fin_exact hpre htied hend
+  rw [he, hk] at hacc
+  by_cases ha : acc = []
+  · rw [if_pos ha] at hacc ⊢; exact hacc
+  · rw [if_neg ha] at hacc ⊢; exact hacc
+
+/-- **Re-polling, stream still open.**  The bytes received so far, cut and scheduled in ANY way
+    (chunks and `pend`s in any order, nothing else), no protocol error in them: with every call
+    polled again until the script is used up, the observed outcome is one the recogniser accepts
+    for the frame kinds of ALL the bytes, stream still open — every complete frame has been acted
+    on, every payload byte of a DATA frame still arriving has been handed out, the call in progress
+    is pending. -/
+theorem C03_polled_outcome_open (role : Role) (H : Hdr) (sc : List H3.FS.Ev)
+    (hch : NoEnd sc) (hsc : ScriptOK sc) (hraw : NoRaw (evBytes sc))
+    (hH : HdrsOkK H .head (kindsOf (run frameDec (.hdr []) (evBytes sc)).2))
+    (hlive : (run frameDec (.hdr []) (evBytes sc)).1 ≠ .dead) :
+    (spec (sideOf role) (kindsOf (run frameDec (.hdr []) (evBytes sc)).2) .open_).accepts
+      (observe (documentedPolledChunks role H sc)) := by
+  have hfin : H3.FS.Ev.fin ∉ sc := H3.ReqRecv.noEnd_fin hch
+  have hup : upToFin sc = sc := by
+    have := H3.FS.upToFin_append_of_not_mem sc [] hfin
+    simpa [upToFin] using this
+  obtain ⟨toks, e, htied, _, _, _, hacc⟩ :=
+    C03_polled_lifted_closed role H sc hsc (by rw [hup]; exact hraw) (by rw [hup]; exact hH)
+  obtain ⟨he, hk⟩ := tiedS_open_exact hch htied hlive
+  rw [he, hk] at hacc
+  exact hacc
+
+/-! non-vacuity: the request `wireReq` (HEADERS, DATA(2), trailers, grease; the driver's faithful
+    oracle) delivered byte-wise-ish with polls that find nothing new in between — the one-shot pattern
+    stops at the first `Pending`, the re-polled one delivers everything; an INVALID sequence
+    (HEADERS, DATA(1), GOAWAY) under a schedule with `Pending`s; a stream still open -/
+def polledReq : List H3.FS.Ev :=
+  [.chunk (wireReq.take 1), .pend, .chunk ((wireReq.drop 1).take 9), .pend, .pend,
+   .chunk ((wireReq.drop 10).take 7), .pend, .chunk ((wireReq.drop 17).take 1), .pend,
+   .chunk ((wireReq.drop 18).take 3), .pend, .chunk (wireReq.drop 21), .pend]
+
+example : evBytes polledReq = wireReq := by decide +kernel
+example : observe (documentedChunks .server (H3.Drv.C03.hdrFor .server) (polledReq ++ [.fin])) =
+    { calls := [.pending] } := by decide +kernel
+example : observe (documentedPolledChunks .server (H3.Drv.C03.hdrFor .server) (polledReq ++ [.fin])) =
+    { calls := [.head H3.Drv.C03.blkRequest, .body [0xc1, 0xc2], .bodyEnd, .trailers H3.Drv.C03.blkTrailer] } := by
+  decide +kernel
+example : (spec .server (kindsOf (run frameDec (.hdr []) (evBytes polledReq)).2) (if ([] : List Nat) = [] then .fin else .truncated)).accepts
+    (observe (documentedPolledChunks .server (H3.Drv.C03.hdrFor .server) (polledReq ++ .fin :: []))) :=
+  C03_polled_outcome_fin .server (H3.Drv.C03.hdrFor .server) polledReq [] [] (by decide +kernel) (by decide +kernel)
+    (by decide +kernel) (by decide +kernel) (by decide +kernel)
+-- still open after the same deliveries: everything handed out, `recv_trailers` waits for the end
+example : observe (documentedPolledChunks .server (H3.Drv.C03.hdrFor .server) polledReq) =
+    { calls := [.head H3.Drv.C03.blkRequest, .body [0xc1, 0xc2], .bodyEnd, .pending] } := by decide +kernel
+example : (spec .server (kindsOf (run frameDec (.hdr []) (evBytes polledReq)).2) .open_).accepts
+    (observe (documentedPolledChunks .server (H3.Drv.C03.hdrFor .server) polledReq)) :=
+  C03_polled_outcome_open .server (H3.Drv.C03.hdrFor .server) polledReq (by decide +kernel) (by decide +kernel)
+    (by decide +kernel) (by decide +kernel) (by decide +kernel)
+-- an invalid sequence under a schedule with `Pending`s: HEADERS, DATA(1), GOAWAY, then FIN
+def polledBad : List H3.FS.Ev :=
+  [.chunk [0x01], .pend, .chunk [0x01, 0xaa, 0x00], .pend, .chunk [0x01, 0xc1, 0x07], .pend, .chunk [0x01], .pend,
+   .chunk [0x00]]
+example : observe (documentedPolledChunks .client allOk (polledBad ++ [.fin])) =
+    { calls := [.head [0xaa], .body [0xc1], .connError 261], connError := some 261 } := by decide +kernel
+example : (spec .client (kindsOf (run frameDec (.hdr []) (evBytes polledBad)).2) (if ([] : List Nat) = [] then .fin else .truncated)).accepts
+    (observe (documentedPolledChunks .client allOk (polledBad ++ .fin :: []))) :=
+  C03_polled_outcome_fin .client allOk polledBad [] [] (by decide +kernel) (by decide +kernel)
+    (by decide +kernel) (by decide +kernel) (by decide +kernel)
+-- FIN inside a frame header (the GOAWAY frame lacks its payload): H3_FRAME_ERROR, under the same schedule
+example : observe (documentedPolledChunks .client allOk (polledBad.dropLast ++ [.fin])) =
+    { calls := [.head [0xaa], .body [0xc1], .connError 262], connError := some 262 } := by decide +kernel
+example : (spec .client (kindsOf (run frameDec (.hdr []) (evBytes polledBad.dropLast)).2)
+      (if ([0x07, 0x01] : List Nat) = [] then .fin else .truncated)).accepts
+    (observe (documentedPolledChunks .client allOk (polledBad.dropLast ++ .fin :: []))) :=
+  C03_polled_outcome_fin .client allOk polledBad.dropLast [] [0x07, 0x01] (by decide +kernel) (by decide +kernel)
+    (by decide +kernel) (by decide +kernel) (by decide +kernel)
+-- RESET in the middle of the DATA payload of `wireReq`, polls in between: the prefix version
+example : ∃ toks e, TiedS ((polledReq.take 8) ++ [.reset 9]) toks e ∧ (∀ tok ∈ toks, TokWF tok) ∧
+    HdrsOk (H3.Drv.C03.hdrFor .server) toks ∧
+    documentedPolledChunks .server (H3.Drv.C03.hdrFor .server) ((polledReq.take 8) ++ [.reset 9]) =
+      documentedFrames .server (H3.Drv.C03.hdrFor .server) (fsFuel ({}, (polledReq.take 8) ++ [.reset 9])) toks e ∧
+    (spec .server (toks.map kind) (stopOf e)).accepts
+      (observe (documentedPolledChunks .server (H3.Drv.C03.hdrFor .server) ((polledReq.take 8) ++ [.reset 9]))) :=
+  C03_polled_lifted_closed .server (H3.Drv.C03.hdrFor .server) _ (by decide +kernel) (by decide +kernel)
+    (by decide +kernel)
+example : observe (documentedPolledChunks .server (H3.Drv.C03.hdrFor .server) ((polledReq.take 8) ++ [.reset 9])) =
+    { calls := [.head H3.Drv.C03.blkRequest, .body [0xc1], .resetBy 9] } := by decide +kernel
 
 /-- Why the simulation is `FrameSimP` and not `FrameSim`: for a script with a `Pending` before
     more data NO relation containing the initial configuration is a `FrameSim` between the
